@@ -17,7 +17,7 @@ import asyncio
 
 from grpclib.client import UnaryUnaryMethod
 from grpclib.config import Configuration
-from h2.events import RequestReceived, DataReceived
+from h2.events import DataReceived
 
 from harness import wire, peer as P
 from harness.svc import exc_name
@@ -41,18 +41,29 @@ class HoldTransport(wire.MemTransport):
             self.on_close()
 
 
-class CmdClientEnd(wire.ClientEnd):
-    """`_create_connection` as asyncio's create_connection behaves: it suspends on a future that the
-    harness completes (`resolve`), builds the transport and calls connection_made at that moment, and the
-    awaiting task resumes one loop iteration later.  If the awaiting task is cancelled after the
-    connection was made, the transport is closed (asyncio's `except: transport.close(); raise`)."""
+class CmdClientEnd:
+    """A real Channel on the virtual loop whose connection attempts are scripted at the PUBLIC asyncio boundary:
+    the loop's `create_connection` / `create_unix_connection` (what Channel awaits to connect, whatever its private
+    helpers are called) are replaced on the loop instance.  As asyncio's create_connection behaves, an attempt
+    suspends on a future that the harness completes (`resolve`): the transport is built and connection_made is
+    called at that moment, and the awaiting task resumes one loop iteration later.  If the awaiting task is
+    cancelled after the connection was made, the transport is closed (asyncio: `except: transport.close(); raise`)."""
 
-    def __init__(self, loop, **kw):
-        super().__init__(loop, **kw)
-        self.pending = []            # [(future, outcome)] attempts in flight, oldest first
+    def __init__(self, loop, config=None, connect_script=None, auto_settings=True):
+        from grpclib.client import Channel
+        from harness.svc import RawCodec
+        self.loop = loop
+        self.channel = Channel(codec=RawCodec(), config=config)
+        loop.create_connection = self._loop_create_connection
+        loop.create_unix_connection = self._loop_create_connection
+        self.connect_script = list(connect_script or [])
+        self.connects = 0
+        self.conns = []              # [(protocol, transport, peer)]
+        self.auto_settings = auto_settings
+        self.pending = []            # [(future, outcome, owner, protocol_factory)] attempts in flight, oldest first
         self.max_in_flight = 0
         self.create_log = []         # (virtual time, number in flight after the invocation)
-        self.failed_owners = []      # caller in whose task _create_connection raised OSError
+        self.failed_owners = []      # caller in whose task the connection attempt raised OSError
         self.made_by = []            # conn index -> caller whose attempt made it
         self.owner_of = None         # callable: current caller id
         self.delays = []             # delays of timed attempts (mode 't')
@@ -60,8 +71,8 @@ class CmdClientEnd(wire.ClientEnd):
         self.timed_in_flight = 0
         self.live_at_make = []       # number of live connections right after each connection_made
 
-    def _make(self):
-        proto = self.channel._protocol_factory()
+    def _make(self, protocol_factory):
+        proto = protocol_factory()
         peer = P.Peer(client_side=False)
         tr = HoldTransport(proto, self.loop, on_write=peer.receive)
         peer.attach(tr)
@@ -70,11 +81,10 @@ class CmdClientEnd(wire.ClientEnd):
         if self.auto_settings:
             peer.flush()
         self.conns.append((proto, tr, peer))
-        self.live_at_make.append(sum(1 for p, _, _ in self.conns
-                                     if not p.handler.connection_lost and not p.connection.is_closing()))
-        return proto
+        self.live_at_make.append(sum(1 for p, t, _ in self.conns if not conn_dead(p, t)))
+        return tr, proto
 
-    async def _create_connection(self):
+    async def _loop_create_connection(self, protocol_factory, *args, **kw):
         self.connects += 1
         kind, mode = self.connect_script.pop(0) if self.connect_script else ('ok', self.default_mode)
         owner = self.owner_of() if self.owner_of else None
@@ -84,7 +94,7 @@ class CmdClientEnd(wire.ClientEnd):
                 self.failed_owners.append(owner)
                 raise ConnectionRefusedError('scripted connect failure')
             self.made_by.append(owner)
-            return self._make()
+            return self._make(protocol_factory)
         if mode == 't':
             # timed attempt (oracle-only family): the outcome arrives after `delay` virtual seconds
             self.timed_in_flight += 1
@@ -97,9 +107,9 @@ class CmdClientEnd(wire.ClientEnd):
                 self.failed_owners.append(owner)
                 raise ConnectionRefusedError('scripted connect failure')
             self.made_by.append(owner)
-            return self._make()
+            return self._make(protocol_factory)
         fut = self.loop.create_future()
-        entry = (fut, kind, owner)
+        entry = (fut, kind, owner, protocol_factory)
         self.pending.append(entry)
         self.max_in_flight = max(self.max_in_flight, len(self.pending))
         self.create_log.append((self.loop.time(), len(self.pending)))
@@ -110,10 +120,7 @@ class CmdClientEnd(wire.ClientEnd):
                 self.pending.remove(entry)
             if fut.done() and not fut.cancelled() and fut.exception() is None:
                 # the connection had been made; asyncio closes the transport when the waiter is cancelled
-                proto = fut.result()
-                for p, tr, _ in self.conns:
-                    if p is proto:
-                        tr.close()
+                fut.result()[0].close()
             raise
 
     def resolve(self):
@@ -122,14 +129,57 @@ class CmdClientEnd(wire.ClientEnd):
         self.pending = [e for e in self.pending if not e[0].done()]
         if not self.pending:
             return False
-        fut, kind, owner = self.pending.pop(0)
+        fut, kind, owner, factory = self.pending.pop(0)
         if kind == 'fail':
             self.failed_owners.append(owner)
             fut.set_exception(ConnectionRefusedError('scripted connect failure'))
         else:
             self.made_by.append(owner)
-            fut.set_result(self._make())
+            fut.set_result(self._make(factory))
         return True
+
+    @property
+    def transport(self):
+        return self.conns[-1][1]
+
+    @property
+    def peer(self):
+        return self.conns[-1][2]
+
+
+def conn_lost_flag(proto):
+    """the client handler's `connection_lost` flag, or None when it cannot be observed"""
+    h = getattr(proto, 'handler', None)
+    v = getattr(h, 'connection_lost', None)
+    return None if v is None else bool(v)
+
+
+def conn_closing(proto, tr):
+    c = getattr(proto, 'connection', None)
+    f = getattr(c, 'is_closing', None)
+    try:
+        return bool(f()) if f is not None else bool(tr.closing)
+    except Exception:
+        return bool(tr.closing)
+
+
+def conn_dead(proto, tr):
+    return bool(conn_lost_flag(proto)) or conn_closing(proto, tr)
+
+
+def find_by_role(ch, pred):
+    """a private attribute of the channel is located by what it holds, never by its name"""
+    try:
+        items = list(vars(ch).items())
+    except TypeError:
+        return None, None
+    for name, val in items:
+        try:
+            if pred(val):
+                return name, val
+        except Exception:
+            pass
+    return None, None
 
 
 def payload(k):
@@ -144,8 +194,12 @@ class Runner:
         self.case = case
         cfg = None
         if case.get('ka'):
-            cfg = Configuration(_keepalive_time=KA_TIME, _keepalive_timeout=KA_TIMEOUT,
-                                _keepalive_permit_without_calls=True)
+            try:
+                cfg = Configuration(_keepalive_time=KA_TIME, _keepalive_timeout=KA_TIMEOUT,
+                                    _keepalive_permit_without_calls=True)
+            except TypeError:
+                # keepalive cannot be configured this way any more: run the case without keepalive stimuli
+                self.case = case = dict(case, ka=False)
         self.ce = CmdClientEnd(loop, config=cfg,
                                connect_script=[(o, m) for o, m in case.get('script', [])])
         self.ce.owner_of = self._current_caller
@@ -164,12 +218,17 @@ class Runner:
         self.was_unregistered = set()  # callers seen blocked in protocol.Stream.send_request (not registered)
         self.bi = 0
         self.anomalies = []
+        self.started_before = set()
+        self.instrumented = False
         self._wrap_connect()
 
     # ---- instrumentation at the Channel's own method boundary (no source hook)
     def _wrap_connect(self):
         ch = self.ce.channel
-        orig = ch.__connect__
+        orig = getattr(ch, '__connect__', None)
+        self.instrumented = callable(orig)
+        if not self.instrumented:
+            return                   # degrade: what __connect__ hands out is then not observed
         runner = self
 
         async def connect():
@@ -177,7 +236,8 @@ class Runner:
             proto = await orig()
             k = runner._current_caller()
             idx = runner._conn_index(proto)
-            dead = (proto is None or proto.handler.connection_lost or proto.connection.is_closing())
+            tr = next((t for p, t, _ in runner.ce.conns if p is proto), None)
+            dead = proto is None or (tr is not None and conn_dead(proto, tr))
             runner.handed.append((k, idx, bool(dead)))
             runner.handed_at.append(runner.bi)
             return proto
@@ -214,11 +274,13 @@ class Runner:
             if st[1] < len(self.tasks):
                 self.tasks[st[1]].cancel()
         elif op == 'close':
-            unfinished = [k for k, t in enumerate(self.tasks) if not t.done() and k in self.entered]
+            if self.instrumented:
+                unfinished = [k for k, t in enumerate(self.tasks) if not t.done() and k in self.entered]
+            else:
+                unfinished = [k for k, t in enumerate(self.tasks) if not t.done() and k in self.started_before]
             self.inflight_at_close.append((bi, unfinished, self.stages(),
                                           {'creates': ce.connects, 'fails': len(ce.failed_owners),
-                                           'protocol': self._conn_index(ce.channel._protocol)
-                                           if ce.channel._protocol is not None else None}))
+                                           'protocol': self.held_protocol()}))
             ce.channel.close()
         elif op in ('lose', 'goaway', 'pause', 'resume', 'hold'):
             c = st[1]
@@ -276,8 +338,16 @@ class Runner:
                     if data.startswith(b'call-'):
                         self.req[int(data[5:])] = (c, ev.stream_id)
 
+    def held_protocol(self):
+        """index of the connection the channel holds (found by role: the attribute whose value is one of the
+        protocols that were made), or None"""
+        protos = [p for p, _, _ in self.ce.conns]
+        _, val = find_by_role(self.ce.channel, lambda v: any(v is p for p in protos))
+        return self._conn_index(val) if val is not None else None
+
     def run_batch(self, batch, bi):
         self.bi = bi
+        self.started_before = set(range(len(self.tasks)))
         self._run_batch(batch, bi)
         self.was_unregistered |= {k for k, v in self.stages().items() if v == 'unregistered'}
 
@@ -335,41 +405,35 @@ class Runner:
     # ---- observables
     def stages(self):
         """for the oracle: where is each unfinished call?  'connecting' (inside __connect__),
-        'unregistered' (got a protocol, not in processor.streams), 'registered'"""
+        'unregistered' (got a protocol, its request has not reached the peer), 'registered'"""
         out = {}
         got = {k: c for k, c, _ in self.handed if k is not None}
-        regd = set()
-        for c, (proto, tr, peer) in enumerate(self.ce.conns):
-            for s in proto.processor.streams.values():
-                w = s.wrapper
-                if w is not None:
-                    for k, t in enumerate(self.tasks):
-                        if t in w._tasks:
-                            regd.add(k)
-        # a registered call is found through its wrapper's task set only while it is blocked inside the
-        # wrapper; fall back on the peer having seen its request
-        for k in self.req:
-            regd.add(k)
         for k, t in enumerate(self.tasks):
             if t.done():
                 continue
-            if k in regd:
+            if k in self.req:             # the peer saw its request: the stream exists, the call is registered
                 out[k] = 'registered'
-            elif k in got:
-                out[k] = 'unregistered'
+            elif k in got or not self.instrumented:
+                out[k] = 'unregistered' if k in got else 'unknown'
             else:
                 out[k] = 'connecting'
         return out
 
     def observe(self):
+        """the observation vector; a field that cannot be observed (a private attribute that is not there any
+        more) is None and is left out of the comparison with the model -- never an exception"""
+        import enum
         ce = self.ce
         ch = ce.channel
         conns = []
         for proto, tr, peer in ce.conns:
-            conns.append((int(bool(proto.handler.connection_lost)),
-                          int(bool(proto.connection.is_closing())),
-                          int(bool(tr.lost)),
-                          len(proto.processor.streams)))
+            lost = conn_lost_flag(proto)
+            streams = getattr(getattr(proto, 'processor', None), 'streams', None)
+            try:
+                n = len(streams) if streams is not None else None
+            except TypeError:
+                n = None
+            conns.append((None if lost is None else int(lost), int(conn_closing(proto, tr)), int(bool(tr.lost)), n))
         callers = []
         for k, t in enumerate(self.tasks):
             if not t.done():
@@ -383,16 +447,21 @@ class Runner:
                 r = t.result()
                 c = self.req.get(k, (None,))[0]
                 callers.append('ok:%s' % c if r == b'reply-%d' % k else 'badreply')
-        p = ch._protocol
-        lock = ch._connect_lock
-        nwait = len(lock._waiters) if lock._waiters else 0
+        _, lock = find_by_role(ch, lambda v: isinstance(v, asyncio.Lock))
+        locked = waiters = None
+        if lock is not None:
+            locked = int(lock.locked())
+            w = getattr(lock, '_waiters', None)          # asyncio's, not grpclib's
+            waiters = len(w) if w else 0
+        _, st = find_by_role(ch, lambda v: isinstance(v, enum.Enum))
+        state = {'IDLE': 1, 'CONNECTING': 2, 'READY': 3, 'TRANSIENT_FAILURE': 4}.get(getattr(st, 'name', None))
         return {
             'creates': ce.connects,
             'inflight': len([e for e in ce.pending if not e[0].done()]) + ce.timed_in_flight,
-            'protocol': self._conn_index(p) if p is not None else None,
-            'locked': int(lock.locked()),
-            'waiters': nwait,
-            'state': int(ch._state),
+            'protocol': self.held_protocol(),
+            'locked': locked,
+            'waiters': waiters,
+            'state': state,
             'conns': conns,
             'callers': callers,
         }
